@@ -3,6 +3,6 @@ Require Import H4.gen.Gen_AN H4.ANSpec H4.ANModel.
 Require Extraction.
 Require ExtrOcamlBasic.
 Extraction "../extract/gen/an_spec.ml" ANSpec.xstep ANSpec.xinit.
-Extraction "../extract/gen/an_model.ml" ANModel.gstep ANModel.ginit ANModel.gfile ANModel.g_gettagref ANModel.g_fann_len ANModel.g_fann_get ANModel.m_atype2tag ANModel.m_tag2atype
+Extraction "../extract/gen/an_model.ml" ANModel.gstep ANModel.ginit ANModel.gfile ANModel.g_gettagref ANModel.g_fann_len ANModel.g_fann_get ANModel.g_lablist_page ANModel.g_restart ANModel.m_atype2tag ANModel.m_tag2atype
   Gen_AN.AN_CREATE_KEY Gen_AN.AN_KEY2TYPE Gen_AN.AN_KEY2REF Gen_AN.ANIanncmp
   Gen_AN.UINT16ENCODE_b0 Gen_AN.UINT16ENCODE_b1 Gen_AN.UINT16DECODE.
